@@ -49,6 +49,7 @@ Local Arguments put_bundler {P D}.
 Local Arguments any_bundling {P D}.
 Local Arguments add_status {P D}.
 Local Arguments request_pause {P D}.
+Local Arguments request_pause_in_task {P D}.
 Local Arguments finish_read {P D}.
 Local Arguments mark_cached {P D}.
 Local Arguments exec_cmd {P D}.
@@ -369,6 +370,33 @@ Proof.
     + right. split; [reflexivity | congruence].
 Qed.
 
+(* the 'pause' message (processed inside the task): without a checkpoint in effect the task is not cancelled (repair C10-a) *)
+Definition pause_accepted_nc (s s' : st) (e : option exn) : Prop :=
+  state s = Running /\ state s' = Pausing /\ interrupted s' = true /\ icause s' = Some CzPause /\
+  late_pause s' = (final_pc (pc s) || late_pause s) /\
+  pc s' = pc s /\ permit s' = permit s /\ blocking s' = blocking s /\ stashed s' = stashed s /\
+  main_err s' = main_err s /\ cache s' = cache s /\ (bundlers s = [] -> bundlers s' = []) /\
+  must_cancel s' = must_cancel s /\
+  ((e = None /\ intr_err s' = intr_err s) \/ intr_err s' = true).
+
+Lemma request_pause_in_task_spec (s : st) d s' e o :
+  request_pause_in_task s d = (s', e, o) ->
+  (core s' = core s /\ cache s' = cache s /\ bundlers s' = bundlers s) \/
+  (resumable s = true /\ pause_accepted s s' e) \/ (resumable s = false /\ pause_accepted_nc s s' e).
+Proof.
+  unfold request_pause_in_task. destruct (request_pause s d) as [[s1 e1] o1] eqn:Er.
+  apply request_pause_spec in Er.
+  destruct (resumable s) eqn:Ers; intros H; inversion H; subst s' e o; clear H.
+  - destruct Er as [Er | Er]; [left; exact Er | right; left; split; [reflexivity | exact Er]].
+  - destruct Er as [(E1 & E2 & E3) | Er].
+    + left. apply core_fields in E1. destruct E1 as (H1 & H2 & H3 & H4 & H5 & H6 & H7 & H8 & H9 & H10 & H11).
+      unfold core. cbn. repeat split; congruence.
+    + right; right. split; [reflexivity|]. unfold pause_accepted in Er. unfold pause_accepted_nc.
+      destruct Er as (A1 & A2 & A3 & A4 & A5 & A6 & A7 & A8 & A9 & A10 & A11 & A12 & A13).
+      cbn. repeat split; try assumption.
+      destruct A13 as [(B1 & _ & B3) | (B1 & _)]; [left; split; assumption | right; exact B1].
+Qed.
+
 (* ------------------------------------------------------------------ commands *)
 Definition is_pause_cmd (c : cmd) : bool := match c with CPause _ => true | _ => false end.
 
@@ -393,16 +421,16 @@ Qed.
 
 Lemma exec_cmd_pause (s : st) m d s' c o :
   mcmd m = CPause d -> exec_cmd s m = (s', c, o) ->
-  exists e o', request_pause s d = (s', e, o') /\ exists r, c = Done r.
+  exists e o', request_pause_in_task s d = (s', e, o') /\ exists r, c = Done r.
 Proof.
-  unfold RE.exec_cmd. intros E. rewrite E. destruct (request_pause s d) as [[s1 e] o1] eqn:Er.
+  unfold RE.exec_cmd. intros E. rewrite E. destruct (request_pause_in_task s d) as [[s1 e] o1] eqn:Er.
   intros H; inversion H; subst. eauto.
 Qed.
 
 Lemma exec_cmd_susp (s : st) m s' k o : exec_cmd s m = (s', Susp k, o) -> is_pause_cmd (mcmd m) = false.
 Proof.
   unfold RE.exec_cmd. destruct (mcmd m); cbn [is_pause_cmd]; auto.
-  destruct (request_pause s defer) as [[s1 e] o1]. intros H; inversion H.
+  destruct (request_pause_in_task s defer) as [[s1 e] o1]. intros H; inversion H.
 Qed.
 
 Lemma push_frame_core (s : st) f : core (push_frame s f) = core s.
@@ -494,7 +522,9 @@ Definition Inv (s : st) (m : option mainact) : Prop := inv_gen s /\ inv_pc s m.
 Definition ppc (s : st) (c : ctl) : Prop :=
   match c with
   | CCancelled _ => state s = Pausing
-  | CContinue _ _ | CTop => state s = Pausing /\ (permit s = false \/ (must_cancel s = true /\ stashed s = None))
+  | CContinue _ _ | CTop =>
+      (* third case: an in-task pause without a checkpoint (repair C10-a); the next turn of the loop throws FailedPause *)
+      state s = Pausing /\ (permit s = false \/ (must_cancel s = true /\ stashed s = None) \/ resumable s = false)
   | CBody => state s = Pausing /\ must_cancel s = true /\ stashed s = None
   | CAfterSleep | CProcess _ => False
   | CExit x => exists e, x = XExn e /\ quiet e = false
@@ -627,7 +657,7 @@ Lemma process_exec (s2 : st) m s3 cr o3 :
   | _ => exec_cmd s2 m
   end = (s3, cr, o3) ->
   (core s3 = core s2) \/
-  ((exists r, cr = Done r) /\ exists d e o', request_pause s2 d = (s3, e, o')).
+  ((exists r, cr = Done r) /\ exists d e o', request_pause_in_task s2 d = (s3, e, o')).
 Proof.
   intros Ex. destruct (mcmd m) eqn:Em;
     try (left; eapply exec_cmd_core; [exact Ex | rewrite Em; reflexivity]).
@@ -653,15 +683,23 @@ Proof.
   apply process_exec in Ex. destruct cr as [r|k]; [|discriminate]. inversion H; subst s' c' o. clear H.
   destruct Ex as [Ex | (_ & d & e & o' & Ex)].
   - assert (Hc3 : core s3 = core s) by congruence. clear Ex Hpre Es2. use_cores. unfold Q, inv_gen, ctlc, ppc. fin3.
-  - apply request_pause_spec in Ex. destruct Ex as [(Ex & _ & _) | Ex].
+  - apply request_pause_in_task_spec in Ex. destruct Ex as [(Ex & _ & _) | [(_ & Ex) | (Ers & Ex)]].
     + assert (Hc3 : core s3 = core s) by congruence. clear Ex Hpre Es2. use_cores. unfold Q, inv_gen, ctlc, ppc. fin3.
     + clear Es2. use_cores. unfold pause_accepted in Ex.
       destruct Ex as (A1 & A2 & A3 & A4 & A5 & A6 & A7 & A8 & A9 & A10 & A11 & A12 & A13).
       unfold Q, inv_gen, ctlc, ppc, live. rewrite A2, A3, A4, A6, A7, A8, A9.
       destruct Hc as (Hc1 & Hc2 & Hc3).
       repeat split; try congruence.
-      all: try (destruct H as (_ & _ & _ & L4); right; destruct A13 as [(_ & B1 & _) | (B1 & _)]; [|congruence];
+      all: try (destruct H as (_ & _ & _ & L4); right; left; destruct A13 as [(_ & B1 & _) | (B1 & _)]; [|congruence];
                 split; [|congruence]; rewrite B1, Fpc, Ha; reflexivity).
+    + clear Es2. use_cores. unfold pause_accepted_nc in Ex.
+      destruct Ex as (A1 & A2 & A3 & A4 & A5 & A6 & A7 & A8 & A9 & A10 & A11 & A12 & A13 & A14).
+      assert (Ers3 : resumable (set_resps s3 (r :: resps s3)) = false).
+      { unfold resumable in *. cbn. rewrite A11. exact Ers. }
+      unfold Q, inv_gen, ctlc, ppc, live. rewrite A2, A3, A4, A6, A7, A8, A9.
+      destruct Hc as (Hc1 & Hc2 & Hc3).
+      repeat split; try congruence.
+      all: try (right; right; exact Ers3).
 Qed.
 
 Lemma Q_step (s : st) c s' c' o : Q s c -> dstep s c = inl (s', c', o) -> Q s' c'.
